@@ -136,13 +136,19 @@ package headers
 //@ pure func repoTips(r *Repository) bool = forall(i, 0, len(r.branches), tipOK(r.branches[i]) && r.branches[i].heightsMap != nil)
 //@ pure func repoMax(r *Repository) bool = forall(i, 0, len(r.branches), W(last(*r.longest)) >= W(last(*r.branches[i])))
 //@ pure func repoSep(r *Repository) bool = forall(i, 0, len(r.branches), forall(j, 0, len(r.branches), i != j ==> r.branches[i] != r.branches[j] && arr(r.branches[i].headers) != arr(r.branches[j].headers)))
-//@ pure func repoInv(r *Repository) bool = repoBasic(r) && repoTips(r) && repoMax(r) && repoSep(r)
+// repoSlots: every in-memory slot of every branch is complete; repoRoot: the first branch is a root.
+//@ pure func slotsOK(b *Branch) bool = forall(o, 0, len(b.headers), slotOK(b.headers[o]))
+//@ pure func repoSlots(r *Repository) bool = forall(i, 0, len(r.branches), slotsOK(r.branches[i]))
+//@ pure func repoRoot(r *Repository) bool = len(r.branches) > 0 && r.branches[0].parent == nil
+//@ pure func repoInv(r *Repository) bool = repoBasic(r) && repoTips(r) && repoMax(r) && repoSep(r) && repoSlots(r) && repoRoot(r)
 
 //@ trusted func (*Repository).clean
 //@   requires [basic] repoBasic(repo)
 //@   requires [tips] repoTips(repo)
 //@   requires [max] repoMax(repo)
 //@   requires [sep] repoSep(repo)
+//@   requires [slots] repoSlots(repo)
+//@   requires [root] repoRoot(repo)
 //@   ensures repoInv(repo)
 //@   modifies all
 
@@ -182,6 +188,8 @@ package headers
 //@   ensures [C01.inv-tips] repoTips(repo)
 //@   ensures [C01.tip-maximal] repoMax(repo)
 //@   ensures [C01.inv-sep] repoSep(repo)
+//@   ensures [C01.inv-slots] repoSlots(repo)
+//@   ensures [C01.inv-root] repoRoot(repo)
 //@   ensures [C02.bits-decodable,C08.bad-bits,C15.bits-decodable] !vb ==> result == ErrInvalidTarget
 //@   ensures [C02.work,C08.not-enough-work] vb && !wv ==> result == ErrNotEnoughWork
 //@   ensures [C03.orphan-split,C08.orphan-split] vb && wv && !pk && old(isSplitAfter(repo, hashOf(header))) ==> cause(result) == ErrWrongChain
@@ -282,10 +290,14 @@ package headers
 
 //@ func (*Branches).Trim
 //@   requires branch != nil && forall(i, 0, len(*bs), (*bs)[i] != nil)
-//@   requires forall(i, 0, len(*bs), forall(j, 0, len(*bs), i != j ==> (*bs)[i] != (*bs)[j]))
+//@   requires forall(i, 0, len(*bs), forall(j, 0, len(*bs), i != j ==> (*bs)[i] != (*bs)[j] && arr((*bs)[i].headers) != arr((*bs)[j].headers)))
+//@   requires forall(i, 0, len(*bs), tipOK((*bs)[i]) && slotsOK((*bs)[i]) && (*bs)[i].heightsMap != nil) && tipOK(branch) && slotsOK(branch)
 //@   ensures [C17.branch-gone] result == nil && height == old(branch.parentHeight) + 1 ==> forall(i, 0, len(*bs), (*bs)[i] != branch)
 //@   ensures [C17.children-gone] result == nil ==> forall(i, 0, len(*bs), (*bs)[i] != nil && !((*bs)[i].parent == branch && (*bs)[i].parentHeight >= height))
 //@   ensures [C17.no-longer] result == nil ==> len(*bs) <= old(len(*bs))
+//@   ensures [C17.tips-ok] result == nil ==> forall(i, 0, len(*bs), tipOK((*bs)[i]) && (*bs)[i].heightsMap != nil)
+//@   ensures [C17.slots-ok] result == nil ==> forall(i, 0, len(*bs), slotsOK((*bs)[i]))
+//@   ensures [C17.still-separate] result == nil ==> forall(i, 0, len(*bs), forall(j, 0, len(*bs), i != j ==> (*bs)[i] != (*bs)[j] && arr((*bs)[i].headers) != arr((*bs)[j].headers)))
 //@   ensures [C17.first-root-survives] result == nil && old(len(*bs)) > 0 && old((*bs)[0].parent) == nil && !(old((*bs)[0]) == branch && height == old(branch.parentHeight) + 1) ==> len(*bs) > 0 && (*bs)[0] == old((*bs)[0])
 //@   ensures [C17.trim-call] result == nil && height != old(branch.parentHeight) + 1 ==> len(branch.headers) == height - branch.parentHeight - branch.offset && len(branch.headers) > 0 && arr(branch.headers) == old(arr(branch.headers)) && off(branch.headers) == old(off(branch.headers))
 //@   ensures [C17.untouched] result == nil && height == old(branch.parentHeight) + 1 ==> branch.headers == old(branch.headers) && mapsame(branch.heightsMap)
@@ -303,6 +315,13 @@ package headers
 //@     invariant forall(i, 0, len(newBranches), newBranches[i] != nil && !(newBranches[i].parent == branch && newBranches[i].parentHeight >= height) && (height == branch.parentHeight + 1 ==> newBranches[i] != branch))
 //@     invariant rangeindex >= 0 && atentry(*bs)[0].parent == nil ==> len(newBranches) > 0 && newBranches[0] == atentry(*bs)[0]
 //@     invariant forall(o, 0, len(removedBranches), removedBranches[o] != nil)
+//@     invariant forall(i, 0, len(newBranches), tipOK(newBranches[i]) && newBranches[i].heightsMap != nil)
+//@     invariant forall(i, 0, len(newBranches), slotsOK(newBranches[i]))
+//@     invariant forall(i, 0, len(newBranches), forall(j, rangeindex+1, len(atentry(*bs)), newBranches[i] != atentry(*bs)[j] && arr(newBranches[i].headers) != arr(atentry(*bs)[j].headers)))
+//@     invariant forall(i, 0, len(newBranches), forall(k, 0, len(newBranches), i != k ==> newBranches[i] != newBranches[k] && arr(newBranches[i].headers) != arr(newBranches[k].headers)))
+//@     invariant forall(i, 0, len(atentry(*bs)), forall(j, 0, len(atentry(*bs)), i != j ==> atentry(*bs)[i] != atentry(*bs)[j] && arr(atentry(*bs)[i].headers) != arr(atentry(*bs)[j].headers)))
+//@     invariant forall(i, 0, len(atentry(*bs)), tipOK(atentry(*bs)[i]) && atentry(*bs)[i].heightsMap != nil)
+//@     invariant forall(i, 0, len(atentry(*bs)), slotsOK(atentry(*bs)[i]))
 
 //@ trusted func saveInvalidHashes
 //@   modifies nothing
@@ -315,7 +334,11 @@ package headers
 //@   ensures [C17.listed] result == nil ==> markedInvalid(repo, hash)
 //@   ensures [C17.already-marked] old(markedInvalid(repo, hash)) ==> result == nil && nochange()
 //@   ensures [C17.unknown-only-listed] result == nil && !old(knownIn(repo.branches, hash)) ==> repo.branches == old(repo.branches) && repo.longest == old(repo.longest)
-//@   ensures [C17.tip-falls-back,C01.tip-maximal] result == nil && len(repo.branches) > 0 && repoTips(repo) ==> repoMax(repo) && exists(k, 0, len(repo.branches), repo.longest == repo.branches[k])
+//@   ensures [C17.inv-basic] result == nil ==> repoBasic(repo)
+//@   ensures [C17.inv-tips] result == nil ==> repoTips(repo)
+//@   ensures [C17.tip-falls-back,C01.tip-maximal] result == nil ==> repoMax(repo)
+//@   ensures [C17.inv-rest] result == nil ==> repoSep(repo) && repoSlots(repo) && repoRoot(repo)
+//@   ensures [C17.root-refused] old(exists(j, 0, len(repo.branches), holderAt(repo.branches, hash, j) && repo.branches[j].parent == nil && findH(repo.branches[j], hash) == repo.branches[j].parentHeight + 1)) && !old(markedInvalid(repo, hash)) ==> result != nil && nochange()
 //@   safety [C17]
 //@   modifies all
 //@   loop 1
